@@ -559,4 +559,10 @@ def computed_return(ev):
                         for e in ev.events):
             continue
         rest.append(r)
-    return rest[-1] if rest else (ev.returns[-1] if ev.returns else None)
+    if len(rest) > 1:
+        # the value read is the last one: exits in front of it with another value are reported by R<nn>.19 (sa/rules/exits.py)
+        from ..symex import RETURN_AUDIT
+        for r in rest[:-1]:
+            if r.value.key() != rest[-1].value.key():
+                RETURN_AUDIT.append((ev.returns.modname, getattr(ev.returns.owner, "name", "?"), r, rest[-1], "generic.py:computed_return"))
+    return rest[-1] if rest else (ev.returns.pick(-1) if ev.returns else None)
